@@ -1,18 +1,21 @@
 #!/bin/bash
-# re-run every seeded sub-agent change against the check that is recorded as catching it; table to seeded/REGRESSION.txt
+# re-run every seeded sub-agent change against the check that is recorded as catching it (three at a time, each in
+# its own scratch worktree and scratch directory); table to seeded/REGRESSION.txt
 cd /verif
 : > /tmp/regress.txt
-for d in seeded/c*-w*-m*/; do
-  id=$(basename $d)
+one() {
+  d=$1; id=$(basename $d)
   P=$(python3 -c "
 import json; m=json.load(open('$d/meta.json'))
 o=m.get('detected_by_other_check')
 c=(o or m['check'])['cmd'].split()[1]
 if 'decided by the C16' in m.get('property',''): c='C16'
 print(c)")
-  out=$(timeout 1500 ./tools_patch.sh /verif/$d/patch.diff $P 2>&1)
+  out=$(timeout 2400 ./tools_patch.sh /verif/$d/patch.diff $P 2>&1)
   rc=$(echo "$out" | grep -o "rc=[0-9]*" | tail -1)
   sig=$(echo "$out" | grep "signature:" | head -1 | sed 's/  signature: //' | cut -c1-100)
   echo "$id $P $rc $sig" | tee -a /tmp/regress.txt
-done
-cp /tmp/regress.txt seeded/REGRESSION.txt
+}
+export -f one
+ls -d seeded/c*-w*-m* | xargs -P 3 -I{} bash -c 'one {}'
+sort /tmp/regress.txt > seeded/REGRESSION.txt
